@@ -236,7 +236,8 @@ prop(
     "attribute-count vector {0,1,2,3}^d (3 siblings per level, all derived before any logs, 4 logging orders), one Record handed to two siblings, Enabled on levels -8..12, 6 option sets (nil, levels, ReplaceAttr compositions, AddSource), "
     "hostile messages/keys/values of every slog.Kind. Concurrent stage under -race: 2..32 goroutines log records with unique ids through a 7-handler tree onto ONE shared writer - deliberately unsynchronised in even rounds so the race "
     "detector reports a missing lock, counting overlapping Writes in odd rounds - and the multiset of written lines must equal the multiset of reference lines. A derivation tree / round is one case",
-    [st("sequential", "c19", "TestSequential", timeout_q=600, timeout_t=2400), st("concurrent", "c19", "TestConcurrent", race=True, timeout_q=600, timeout_t=2400)],
+    [st("sequential", "c19", "TestSequential", timeout_q=600, timeout_t=2400), st("concurrent", "c19", "TestConcurrent", race=True, timeout_q=600, timeout_t=2400),
+     st("writer_fault", "c19", "TestWriterFault", timeout_q=600, timeout_t=600)],
     floors=[dict(stage="sequential", key="evaluations", min=100_000), dict(stage="concurrent", key="records", min=50_000)],
     assumptions=[STDLIB, "key order and escaping style of the JSON are not part of the property (semantic comparison)", "records on which the reference text handler itself panics are not compared (counted)"],
 )
@@ -252,7 +253,8 @@ prop(
     [st("order", "c20", "TestOrder", timeout_q=300, timeout_t=900),
      st("isolation", "c20", "TestIsolation", race=True, timeout_q=900, timeout_t=3000),
      st("isolation_p2", "c20", "TestIsolation", timeout_q=900, timeout_t=3000, env={"GOMAXPROCS": "2"}),
-     st("server", "c20", "TestServer", race=True, timeout_q=900, timeout_t=3000)],
+     st("server", "c20", "TestServer", race=True, timeout_q=900, timeout_t=3000),
+     st("hybrid_base", "c20", "TestHybridBase", race=True, timeout_q=600, timeout_t=1800)],
     floors=[dict(stage="isolation", key="barriers_with_two_or_more_requests_inside_the_handler", min=1000), dict(stage="isolation", key="requests", min=20_000),
             dict(stage="isolation_p2", key="requests", min=20_000), dict(stage="server", key="requests", min=2_000), dict(stage="order", key="middleware_lists", min=300)],
     assumptions=["handlers set at most one final status code (a superfluous second WriteHeader is outside the property)", "the recording slog.Handler stays inside the slog.Handler contract (it may retain the WithAttrs slice for the lifetime of the request)"],
